@@ -10,6 +10,10 @@ every enumerated input and both smart_factorization settings, whenever parse ret
   yield_is_tokens                leaves left to right == (name, value) of the non-skipped tokens of the
                                  input (known by construction: the text is rendered from the token list)
   no_helper_symbols              no node name contains '__'
+Sequence templates: a symbol declared with ProdSequence(s1, ..) appears in the raw tree as ONE node whose
+value is the list of the matched element nodes ('<SEQ>__ELEMENT' never appears on the unchanged tree, so
+no_helper_symbols is demanded unchanged); it is flattened for yield_is_tokens and its elements must be
+named s1, .. (nodes_are_user_productions: the template is the production the user supplied).
 Supporting (diagnostic only; not in the statement and false for ambiguous grammars on the unchanged
 tree): when both settings return a tree, the trees are equal.
 The oracle is `check_tree` below (DESIGN.md D.1 `valid_derivation`, written without the parser).
@@ -20,6 +24,7 @@ import contextlib
 import io
 import multiprocessing
 import os
+import re
 import signal
 import sys
 
@@ -44,6 +49,8 @@ REQUIRED_REACH = [
     'synonym-token-leaf',
     'skipped-token-in-input',
     'custom-skip-set',
+    'sequence-node',
+    'sequence-reparsed-at-later-token-after-rollback',
 ]
 
 
@@ -94,8 +101,31 @@ def quiet():
 # ---------------------------------------------------------------------------------------------
 # observation hook (reach events only, never part of a verdict): roll-backs with collected children
 
-STATE = {'rb_children': 0, 'rb_empty': 0}
+STATE = {'rb_children': 0, 'rb_empty': 0, 'seq_names': (), 'discarded': []}
 _HOOK = {'orig': None}
+
+
+def _coords(t):
+    return tuple(t.start_pos.coords)
+
+
+def _note_discarded_sequences(values):
+    """sequence nodes (ProdSequence symbols) among the children that a roll-back throws away:
+    (name, start coordinates of the 2nd, 3rd... element)"""
+    names = STATE['seq_names']
+    todo = list(values)
+    n = 0
+    while todo and n < 200:
+        t = todo.pop()
+        n += 1
+        v = getattr(t, 'value', None)
+        if not isinstance(v, list):
+            continue
+        if getattr(t, 'name', None) in names:
+            if len(v) >= 2:
+                STATE['discarded'].append((t.name, {_coords(c) for c in v[1:]}))
+        else:
+            todo.extend(v)
 
 
 def install_hooks():
@@ -108,6 +138,8 @@ def install_hooks():
         try:
             if self.values:
                 STATE['rb_children'] += 1
+                if STATE['seq_names']:
+                    _note_discarded_sequences(self.values)
             else:
                 STATE['rb_empty'] += 1
         except Exception:       # noqa
@@ -127,8 +159,12 @@ def remove_hooks():
 # ---------------------------------------------------------------------------------------------
 # the oracle
 
-def check_tree(root, G, start, terminals, exp):
-    """-> (fails, dump, events).  fails = [(clause, class, text)]; dump = nested tuples of the tree."""
+def check_tree(root, G, start, terminals, exp, SEQ=None):
+    """-> (fails, dump, events).  fails = [(clause, class, text)]; dump = nested tuples of the tree.
+    SEQ = {sequence symbol: allowed element names} for symbols declared with ProdSequence: the raw tree
+    holds one node per sequence whose value is the list of the matched element nodes (possibly empty);
+    it is flattened for the yield, and its elements must be symbols the user listed in the template."""
+    SEQ = SEQ or {}
     fails = []
     events = set()
     TE = llparser.TElement
@@ -153,6 +189,20 @@ def check_tree(root, G, start, terminals, exp):
         name, value = t.name, t.value
         if isinstance(name, str) and '__' in name:
             add('no_helper_symbols', 'helper-name', f"node named {name!r} in the returned tree")
+        if name in SEQ:
+            if not isinstance(value, list) or not all(isinstance(c, TE) for c in value):
+                add('nodes_are_user_productions', 'malformed-node',
+                    f"sequence node {name!r} has value {value!r} (not a list of TElement)")
+                return (name, repr(value))
+            bad = [c.name for c in value if c.name not in SEQ[name]]
+            if bad:
+                add('nodes_are_user_productions', 'sequence-element-not-in-template',
+                    f"sequence node {name!r} = ProdSequence{tuple(sorted(SEQ[name]))!r} has elements named {bad!r}")
+            try:
+                events.add(('seq', name, _coords(value[0]) if value else None, len(value)))
+            except Exception:       # noqa
+                pass
+            return (name, ('seq',) + tuple(walk(c) for c in value))
         if name in G:
             if value is None or (isinstance(value, list) and not value):
                 if () not in G[name]:
@@ -212,6 +262,9 @@ def check_tree(root, G, start, terminals, exp):
 def prods_arg(prods, none_style):
     d = {}
     for nt, alts in prods:
+        if isinstance(alts, dict):
+            d[nt] = llparser.ProdSequence(*alts['seq'])     # a fresh template object per parser
+            continue
         lst = []
         for a in alts:
             if not a and none_style:
@@ -231,17 +284,25 @@ def build_parser(lex, prods, start, none_style, smart):
 
 
 def grammar_str(prods):
-    return '; '.join(f"{nt} -> " + ' | '.join('(' + ' '.join(a) + ')' for a in alts) for nt, alts in prods)
+    return '; '.join(f"{nt} = ProdSequence({', '.join(alts['seq'])})" if isinstance(alts, dict) else
+                     f"{nt} -> " + ' | '.join('(' + ' '.join(a) + ')' for a in alts) for nt, alts in prods)
+
+
+def split_grammar(prods):
+    """-> (G, SEQ): ordinary productions {nt: [tuples]}, sequence templates {nt: set of element names}"""
+    G = {nt: [tuple(a) for a in alts] for nt, alts in prods if not isinstance(alts, dict)}
+    SEQ = {nt: frozenset(alts['seq']) for nt, alts in prods if isinstance(alts, dict)}
+    return G, SEQ
 
 
 def _suffix_syms(parser):
     try:
-        return {k for k in parser.prods_map if isinstance(k, str) and '__' in k}
+        return {k for k in parser.prods_map if isinstance(k, str) and re.search(r'__S\d', k)}
     except Exception:       # noqa
         return set()
 
 
-def eval_input(parsers, G, start, terminals, finfo, lexname, toks, seps):
+def eval_input(parsers, G, start, terminals, finfo, lexname, toks, seps, SEQ=None):
     """parse one input with every accepted setting (caller silences stdout/stderr).
     -> dict(fails, events, diags, status per setting, text)"""
     text = gen.make_text(toks, seps)
@@ -251,6 +312,8 @@ def eval_input(parsers, G, start, terminals, finfo, lexname, toks, seps):
     dumps = {}
     for smart, parser in parsers.items():
         STATE['rb_children'] = 0
+        STATE['seq_names'] = SEQ or ()
+        STATE['discarded'] = []
         st, res = guarded(lambda: parser.parse(text, do_cleanup=False), PARSE_BUDGET_S)
         if st == 'budget':
             out['status'][smart] = 'budget'
@@ -265,7 +328,8 @@ def eval_input(parsers, G, start, terminals, finfo, lexname, toks, seps):
                                      f"[smart_factorization={smart}]"))
             continue
         rb_children = STATE['rb_children']
-        fails, dump, events = check_tree(res, G, start, terminals, exp)
+        discarded = STATE['discarded']
+        fails, dump, events = check_tree(res, G, start, terminals, exp, SEQ)
         if fails is None:
             out['status'][smart] = 'non-tree'
             out['diags'].append(('non-tree-result',
@@ -284,6 +348,12 @@ def eval_input(parsers, G, start, terminals, finfo, lexname, toks, seps):
         for e in events:
             if e == 'empty-production-node':
                 ev.add(e)
+                continue
+            if e[0] == 'seq':
+                ev.add('sequence-node')
+                _, name, c0, n = e
+                if n and any(dn == name and c0 in later for dn, later in discarded):
+                    ev.add('sequence-reparsed-at-later-token-after-rollback')
                 continue
             _, name, idx = e
             depth, empty_rem = finfo[name].get(idx, (0, False))
@@ -328,7 +398,7 @@ def eval_input(parsers, G, start, terminals, finfo, lexname, toks, seps):
 def explore_grammar(gs, maxlen, inputs_cache):
     """gs: concrete grammar spec dict(lex, prods, start, none, terms, fam).  -> result dict"""
     lex, prods, start = gs['lex'], gs['prods'], gs['start']
-    G = {nt: [tuple(a) for a in alts] for nt, alts in prods}
+    G, SEQ = split_grammar(prods)
     res = {'status': 'accepted', 'parses': 0, 'trees': 0, 'rejected': 0, 'budget': 0, 'raised': 0,
            'events': {}, 'fails': {}, 'diags': [], 'ctor': None}
     parsers = {}
@@ -365,7 +435,7 @@ def explore_grammar(gs, maxlen, inputs_cache):
     overruns = 0
     for toks, seps in inputs_cache[key]:
         with quiet():
-            o = eval_input(parsers, G, start, terminals, finfo, lex, toks, seps)
+            o = eval_input(parsers, G, start, terminals, finfo, lex, toks, seps, SEQ)
         for smart, st in o['status'].items():
             res['parses'] += 1
             if st == 'tree':
@@ -489,7 +559,7 @@ def _record(b, r, stats):
 def replay_case(case):
     _arm()
     gs = {'lex': case['lex'], 'prods': case['prods'], 'start': case['start'], 'none': case['none']}
-    G = {nt: [tuple(a) for a in alts] for nt, alts in gs['prods']}
+    G, SEQ = split_grammar(gs['prods'])
     parsers = {}
     observed = []
     for smart in (False, True):
@@ -505,7 +575,7 @@ def replay_case(case):
     finfo = {nt: gen.factor_info(alts) for nt, alts in G.items()}
     with quiet():
         o = eval_input(parsers, G, gs['start'], terminals, finfo, gs['lex'],
-                       [tuple(t) for t in case['toks']], case['seps'])
+                       [tuple(t) for t in case['toks']], case['seps'], SEQ)
     observed.append(f"text {o['text']!r}: " + ', '.join(f"smart={k}: {v}" for k, v in o['status'].items()))
     observed += [f"C01.{c}:{k}: {t}" for c, k, t in o['fails']]
     observed += [f"(diagnostic) {d}" for _, d in o['diags']]
